@@ -300,7 +300,16 @@ def _apply_transform_job(transformed_before: bool, root: str = "user_class") -> 
             # forward / inputs / backend list): no cache entry for forward's code object survives from
             # another transformed copy of the same class (beyond recompile_limit Dynamo silently runs eagerly)
             idx = [j for j, e in enumerate(log) if e[0] == "optimize"]
-            ctx.oblige(f"{tag}:dynamo_cache_reset_immediately_before_each_compilation{cs}", bool(idx) and all(j > 0 and log[j - 1][0] == "reset" for j in idx), log=str([e[0] for e in log]))
+            def reset_before(j: int) -> bool:
+                # a reset after the previous compilation / compiled run and before this compilation
+                for e in reversed(log[:j]):
+                    if e[0] == "reset":
+                        return True
+                    if e[0] in ("optimize", "run"):
+                        return False
+                return False
+
+            ctx.oblige(f"{tag}:dynamo_cache_reset_immediately_before_each_compilation{cs}", bool(idx) and all(reset_before(j) for j in idx), log=str([e[0] for e in log]))
             if opt:
                 comp = opt[0][1]
                 same_list = isinstance(comp, FuncVal) and comp.env.has("backends") and comp.env.lookup("backends") is nb
